@@ -9,10 +9,12 @@
 package accessors
 
 import (
+	"bytes"
 	"encoding/json"
 	"errors"
 	"fmt"
 	"reflect"
+	"sync"
 	"testing"
 
 	"github.com/NethermindEth/juno/core"
@@ -81,6 +83,7 @@ type input struct {
 	Start      int      `json:"start"`
 	Behaviours [][]step `json:"behaviours"`
 	Backends   []string `json:"backends"`
+	Concurrent bool     `json:"concurrent"` // also run the concurrent-writers round
 }
 
 // ------------------------------------------------------------------ equality
@@ -323,7 +326,18 @@ func concretise(g *chainkit.Gen, n *chainkit.Node, a action, number, idx int, co
 
 // ------------------------------------------------------------------ the sweep
 
+// kept: bytes a serializer returned for one value, a snapshot of them taken at once, and how to
+// check that they still decode to that value. Serialising OTHER values afterwards must not change
+// them (an encoder that returns memory it reuses corrupts whatever is written later).
+type kept struct {
+	name   string
+	bytes  []byte
+	snap   []byte
+	decode func([]byte) error
+}
+
 type sweeper struct {
+	kept    []kept
 	out     *vh.Result
 	backend string
 	replay  any
@@ -481,9 +495,17 @@ func (s *sweeper) sweepBlock(v blockView) {
 		}
 		s.check("GetTransactionEventsByBlockNumber", listKind(v.Events), wantE, evs, err)
 		if st != nil {
+			// the lazily decoding accessors are OBTAINED first and CONSUMED after other reads: what
+			// they return must not depend on memory the database only lent to them
+			lazy := core.GetTransactionsByBlockNumberIter(store, n)
+			bt, bterr := core.BlockTransactionsBucket.Get(store, n)
+			for m := uint64(0); m < uint64(len(s.chain)); m++ {
+				_, _ = bc.BlockByNumber(m)
+				_, _ = core.GetReceiptsByBlockNumber(store, m)
+			}
 			it := []core.Transaction{}
 			var ierr error
-			for tx, err := range core.GetTransactionsByBlockNumberIter(store, n) {
+			for tx, err := range lazy {
 				if err != nil {
 					ierr = err
 					break
@@ -491,14 +513,23 @@ func (s *sweeper) sweepBlock(v blockView) {
 				it = append(it, tx)
 			}
 			s.check("GetTransactionsByBlockNumberIter", "found", wantTxs, it, ierr)
-			bt, err := core.BlockTransactionsBucket.Get(store, n)
-			if err != nil {
-				s.bad("BlockTransactionsBucket", "kind", err.Error(), "found", err)
+			if bterr != nil {
+				s.bad("BlockTransactionsBucket", "kind", bterr.Error(), "found", bterr)
 			} else {
 				all, err := bt.Transactions().All()
 				s.check("BlockTransactions.Transactions.All", "found", wantTxs, all, err)
 				allr, err := bt.Receipts().All()
 				s.check("BlockTransactions.Receipts.All", "found", wantRcs, allr, err)
+				one := []core.Transaction{}
+				var oerr error
+				for tx, err := range bt.Transactions().Iter() {
+					if err != nil {
+						oerr = err
+						break
+					}
+					one = append(one, tx)
+				}
+				s.check("BlockTransactions.Transactions.Iter", "found", wantTxs, one, oerr)
 			}
 		}
 	}
@@ -590,6 +621,30 @@ func (s *sweeper) sweepBlock(v blockView) {
 	}
 }
 
+// scan reads every block blob through the prefix scan of the typed bucket, keeps the entries and
+// decodes them only after the scan (and its iterator) is over.
+func (s *sweeper) scan() {
+	var entries []core.BlockTransactions
+	var serr error
+	for e, err := range core.BlockTransactionsBucket.Prefix().Scan(s.bc.Store) {
+		if err != nil {
+			serr = err
+			break
+		}
+		entries = append(entries, e.Value)
+	}
+	if serr != nil || len(entries) != len(s.chain) {
+		s.bad("BlockTransactionsBucket.Scan", "kind", "scan", len(s.chain), fmt.Sprint(len(entries), serr))
+		return
+	}
+	for i, e := range entries {
+		txs, err := e.Transactions().All()
+		s.check("BlockTransactionsBucket.Scan.transactions", "found", s.chain[i].b.Block.Transactions, txs, err)
+		rcs, err := e.Receipts().All()
+		s.check("BlockTransactionsBucket.Scan.receipts", "found", s.chain[i].b.Block.Receipts, rcs, err)
+	}
+}
+
 // ------------------------------------------------------------------ codec identity
 
 func roundTrip[T any](s *sweeper, name string, v T) {
@@ -613,7 +668,105 @@ func roundTrip[T any](s *sweeper, name string, v T) {
 	}
 }
 
+func keep[T any](s *sweeper, name string, v T, enc []byte) {
+	s.kept = append(s.kept, kept{name: name, bytes: enc, snap: bytes.Clone(enc), decode: func(b []byte) error {
+		var back T
+		if err := encoder.Unmarshal(b, &back); err != nil {
+			return err
+		}
+		if !equal(any(v), any(back)) {
+			return errors.New("decodes to another value")
+		}
+		return nil
+	}})
+}
+
+// checkKept: after further values went through the same serializers, every retained encoding must
+// be byte-for-byte what it was and still decode to its value.
+func (s *sweeper) checkKept() {
+	for _, k := range s.kept {
+		s.n++
+		if !bytes.Equal(k.bytes, k.snap) {
+			s.bad("codec:"+k.name, "retained-bytes-changed",
+				"the bytes returned for one value changed when other values were serialised afterwards", "unchanged", "rewritten")
+			continue
+		}
+		if err := k.decode(k.bytes); err != nil {
+			s.bad("codec:"+k.name, "retained-bytes-decode", err.Error(), "decodes to the value", err)
+		}
+	}
+	s.kept = nil
+}
+
 func (s *sweeper) codecs(st *stored) {
+	for _, tx := range st.b.Block.Transactions {
+		if enc, err := encoder.Marshal(tx); err == nil {
+			keep(s, fmt.Sprintf("encoder.Marshal(%T)", tx), tx, enc)
+		}
+	}
+	for _, r := range st.b.Block.Receipts {
+		if enc, err := encoder.Marshal(r); err == nil {
+			keep(s, "encoder.Marshal(TransactionReceipt)", r, enc)
+		}
+	}
+	if enc, err := encoder.Marshal(st.b.Block.Header); err == nil {
+		keep(s, "encoder.Marshal(Header)", st.b.Block.Header, enc)
+	}
+	if enc, err := encoder.Marshal(st.b.Update); err == nil {
+		keep(s, "encoder.Marshal(StateUpdate)", st.b.Update, enc)
+	}
+	for _, c := range st.b.Classes {
+		dc := &core.DeclaredClassDefinition{At: st.b.Block.Number, Class: c}
+		if enc, err := dc.MarshalBinary(); err == nil {
+			want := dc
+			s.kept = append(s.kept, kept{name: "DeclaredClassDefinition.MarshalBinary", bytes: enc, snap: bytes.Clone(enc),
+				decode: func(b []byte) error {
+					var back core.DeclaredClassDefinition
+					if err := back.UnmarshalBinary(b); err != nil {
+						return err
+					}
+					if !equal(want, &back) {
+						return errors.New("decodes to another value")
+					}
+					return nil
+				}})
+		}
+	}
+	{
+		bt, err := core.NewBlockTransactions(st.b.Block.Transactions, st.b.Block.Receipts)
+		if err == nil {
+			wantTxs, wantRcs := st.b.Block.Transactions, st.b.Block.Receipts
+			dec := func(blob core.BlockTransactions) error {
+				txs, err := blob.Transactions().All()
+				if err != nil {
+					return err
+				}
+				rcs, err := blob.Receipts().All()
+				if err != nil {
+					return err
+				}
+				if !equal(wantTxs, txs) || !equal(wantRcs, rcs) {
+					return errors.New("decodes to another block's transactions / receipts")
+				}
+				return nil
+			}
+			s.kept = append(s.kept, kept{name: "NewBlockTransactions.Data", bytes: bt.Data, snap: bytes.Clone(bt.Data),
+				decode: func(b []byte) error { return dec(core.BlockTransactions{Indexes: bt.Indexes, Data: b}) }})
+			if enc, err := (core.BlockTransactionsSerializer{}).Marshal(&bt); err == nil {
+				s.kept = append(s.kept, kept{name: "BlockTransactionsSerializer.Marshal", bytes: enc, snap: bytes.Clone(enc),
+					decode: func(b []byte) error {
+						var back core.BlockTransactions
+						if err := (core.BlockTransactionsSerializer{}).Unmarshal(b, &back); err != nil {
+							return err
+						}
+						return dec(back)
+					}})
+				// a different value through the same serializer, at once (same goroutine)
+				other := core.BlockTransactions{Data: []byte{0xf6, 0xf6, 0xf6}}
+				_, _ = (core.BlockTransactionsSerializer{}).Marshal(&other)
+			}
+		}
+	}
 	for _, tx := range st.b.Block.Transactions {
 		roundTrip(s, fmt.Sprintf("%T", tx), tx) // through the Transaction interface (type registry)
 	}
@@ -657,6 +810,8 @@ func openStore(backend string) (db.KeyValueStore, error) {
 		return memory.New(), nil
 	case "pebblev2":
 		return pebblev2.New("verif-mem", func(o *pebv2.Options) error { o.FS = vfsv2.NewMem(); return nil })
+	case "memory-poisoned": // enforces "a lent value is only valid inside the callback" (poison_test.go)
+		return poison(memory.New()), nil
 	}
 	return nil, fmt.Errorf("unknown backend %q", backend)
 }
@@ -676,9 +831,10 @@ func TestAccessorsReplay(t *testing.T) {
 		seed = vh.Seed()
 	}
 	if len(in.Backends) == 0 {
-		in.Backends = []string{"memory", "pebblev2"}
+		in.Backends = []string{"memory", "pebblev2", "memory-poisoned"}
 	}
 	calls, steps := 0, 0
+	var writersPool []*stored
 	shapes := map[string]bool{}
 	for bi, beh := range in.Behaviours {
 		idx := in.Start + bi
@@ -703,6 +859,9 @@ func TestAccessorsReplay(t *testing.T) {
 					t.Fatalf("behaviour %d step %d: store: %v", idx, i, err)
 				}
 				sw.chain = append(sw.chain, st)
+				if len(st.b.Block.Transactions) > 0 && len(writersPool) < 16 && backend == in.Backends[0] {
+					writersPool = append(writersPool, st)
+				}
 				for j, k := range stp.A.Kinds {
 					shapes[fmt.Sprintf("%s/ev%d/rev%v", k, stp.A.Evs[j], stp.A.Revs[j])] = true
 				}
@@ -724,7 +883,9 @@ func TestAccessorsReplay(t *testing.T) {
 					sw.sweepBlock(bv)
 				}
 				sw.sweepBlock(stp.View.Beyond)
+				sw.scan()
 			}
+			sw.checkKept() // all four blocks of the chain went through the serializers by now
 			// a restarted node answers the same (nothing lives only in memory)
 			if len(beh) > 0 {
 				sw.bc = node.Restart()
@@ -741,7 +902,66 @@ func TestAccessorsReplay(t *testing.T) {
 		}
 		out.Sample(vh.J{"behaviour": idx, "stores": len(beh), "first": beh[0].A})
 	}
+	if in.Concurrent && len(writersPool) > 1 {
+		n := 3
+		if len(in.Behaviours) < n {
+			n = len(in.Behaviours)
+		}
+		replay := vh.J{"seed": seed, "start": in.Start, "behaviours": in.Behaviours[:n], "backends": in.Backends[:1], "concurrent": true}
+		calls += concurrentWriters(out, writersPool, replay)
+	}
 	out.Done(len(in.Behaviours), steps)
 	out.Stats["accessor_calls_compared"] = calls
 	out.Stats["distinct_item_shapes"] = len(shapes)
+}
+
+// concurrentWriters: several goroutines write DISTINCT blocks through the real write accessor into
+// one store at the same time; afterwards every block must read back as what its writer wrote.
+func concurrentWriters(out *vh.Result, pool []*stored, replay any) int {
+	const writers, rounds = 8, 60
+	n := 0
+	for _, backend := range []string{"memory", "pebblev2"} {
+		store, err := openStore(backend)
+		if err != nil {
+			panic(err)
+		}
+		var wg sync.WaitGroup
+		errs := make([]error, writers)
+		for g := 0; g < writers; g++ {
+			wg.Add(1)
+			go func(g int) {
+				defer wg.Done()
+				for j := 0; j < rounds; j++ {
+					st := pool[(g*7+j)%len(pool)]
+					if err := core.WriteTransactionsAndReceipts(store, uint64(g*1000+j), st.b.Block.Transactions, st.b.Block.Receipts); err != nil {
+						errs[g] = err
+						return
+					}
+				}
+			}(g)
+		}
+		wg.Wait()
+		bad := 0
+		for g := 0; g < writers && bad == 0; g++ {
+			if errs[g] != nil {
+				panic(errs[g])
+			}
+			for j := 0; j < rounds; j++ {
+				st := pool[(g*7+j)%len(pool)]
+				txs, rcs, err := core.GetTransactionsAndReceiptsByBlockNumber(store, uint64(g*1000+j))
+				n++
+				if err != nil || !equal(st.b.Block.Transactions, txs) || !equal(st.b.Block.Receipts, rcs) {
+					bad++
+					out.Diverge(vh.Divergence{Key: "accessor:concurrent-writers:value",
+						What:  fmt.Sprintf("[%s] a block written while other goroutines wrote other blocks reads back as something else (%v)", backend, err),
+						Input: replay, Expected: "what its writer wrote", Observed: fmt.Sprintf("err=%v", err)})
+					break
+				}
+			}
+		}
+		if c, ok := store.(interface{ Close() error }); ok {
+			_ = c.Close()
+		}
+	}
+	return n
 }
